@@ -14,8 +14,15 @@ Fixpoint open_sum (ps : list proposal) : Z :=
 
 Definition deps_nonneg (l : list (Z * Z)) : Prop := Forall (fun da => 0 <= snd da) l.
 
+(* a message that moves coins out of the module account or pledges them *)
 Definition no_govsend_msg (m : msg) : Prop :=
-  match m_act m with AGovSend _ _ => False | _ => True end.
+  match m_act m with AGovSend _ _ | AGovDeposit _ _ => False | _ => True end.
+
+(* what open proposals hold as records of the module account itself: deposits without funds *)
+Definition pledge (p : proposal) : Z :=
+  if is_open (p_status p) then gov_part (p_deps p) else 0.
+Fixpoint pledged (ps : list proposal) : Z :=
+  match ps with [] => 0 | p :: r => pledge p + pledged r end.
 
 Definition prop_ok (p : proposal) : Prop :=
   p_total p = sum_deps (p_deps p) /\ deps_nonneg (p_deps p).
@@ -24,7 +31,7 @@ Record wf (s : state) : Prop := {
   wf_ids : Forall (fun p => p_id p < next_id s) (props s);
   wf_props : Forall prop_ok (props s);
   wf_cons : gov_bal s + gov_spent s = open_sum (props s);
-  wf_spent : 0 <= gov_spent s }.
+  wf_spent : pledged (props s) <= gov_spent s }.
 
 (* ------------------------------------------------------------------ lists of proposals *)
 Lemma find_prop_id : forall id ps p, find_prop id ps = Some p -> p_id p = id.
@@ -102,6 +109,53 @@ Qed.
 Lemma open_sum_app : forall ps q, open_sum (ps ++ [q]) = open_sum ps + contrib q.
 Proof. induction ps as [|a r IH]; cbn; intros; [lia|rewrite IH; lia]. Qed.
 
+Lemma pledged_upd : forall id f ps p,
+  find_prop id ps = Some p ->
+  pledged (upd_prop id f ps) = pledged ps - pledge p + pledge (f p).
+Proof.
+  induction ps as [|a r IH]; cbn; intros p H; [discriminate|].
+  destruct (p_id a =? id).
+  - inversion H; subst. cbn. lia.
+  - cbn. rewrite (IH p H). lia.
+Qed.
+
+Lemma pledged_app : forall ps q, pledged (ps ++ [q]) = pledged ps + pledge q.
+Proof. induction ps as [|a r IH]; cbn; intros; [lia|rewrite IH; lia]. Qed.
+
+Lemma gov_part_bounds : forall l, deps_nonneg l -> 0 <= gov_part l <= sum_deps l.
+Proof.
+  induction 1 as [|[d a] l Ha _ IH]; cbn in *; [lia|]. destruct (d =? gov_acct); lia.
+Qed.
+
+Lemma before_part_bounds : forall l, deps_nonneg l -> 0 <= before_part l /\ before_part l + gov_part l <= sum_deps l.
+Proof.
+  induction 1 as [|[d a] l Ha _ IH]; cbn in *; [lia|].
+  destruct (d =? gov_acct); cbn; [lia|]. destruct (sorts_before_gov d); lia.
+Qed.
+
+Lemma pledge_nonneg : forall p, prop_ok p -> 0 <= pledge p.
+Proof.
+  intros p [_ Hn]. unfold pledge. destruct (is_open (p_status p)); [|lia]. apply (gov_part_bounds _ Hn).
+Qed.
+
+Lemma pledged_nonneg : forall ps, Forall prop_ok ps -> 0 <= pledged ps.
+Proof. induction 1; cbn; [lia|]. pose proof (pledge_nonneg _ H). lia. Qed.
+
+Lemma pledge_le : forall ps p, Forall prop_ok ps -> In p ps -> pledge p <= pledged ps.
+Proof.
+  induction ps as [|a r IH]; cbn; intros p H Hin; [contradiction|]. inversion H; subst.
+  pose proof (pledged_nonneg _ H3). pose proof (pledge_nonneg _ H2).
+  destruct Hin as [->|Hin]; [lia|]. specialize (IH p H3 Hin). lia.
+Qed.
+
+Lemma gov_part_add : forall d a l, gov_part (add_dep d a l) = gov_part l + (if d =? gov_acct then a else 0).
+Proof.
+  induction l as [|[d' a'] r IH]; cbn; [lia|].
+  destruct (d' =? d) eqn:E; cbn.
+  - apply Z.eqb_eq in E; subst. destruct (d =? gov_acct); lia.
+  - rewrite IH. lia.
+Qed.
+
 Lemma sum_deps_nonneg : forall l, deps_nonneg l -> 0 <= sum_deps l.
 Proof. induction 1 as [|[d a] l Ha _ IH]; cbn in *; lia. Qed.
 
@@ -134,6 +188,9 @@ Proof.
     + constructor; [cbn; lia|apply IH; assumption].
 Qed.
 
+Lemma wf_spent_nonneg : forall s, wf s -> 0 <= gov_spent s.
+Proof. intros s [_ Wp _ Ws]. pose proof (pledged_nonneg _ Wp). lia. Qed.
+
 (* ------------------------------------------------------------------ AddDeposit / Submit *)
 Lemma deposited_id : forall P kf cust now dep amt p, p_id (deposited P kf cust now dep amt p) = p_id p.
 Proof. reflexivity. Qed.
@@ -151,6 +208,14 @@ Lemma deposited_contrib : forall P kf cust now dep amt p,
 Proof.
   intros. unfold contrib. rewrite deposited_open by assumption. rewrite H.
   cbn [deposited p_deps]. apply sum_deps_add.
+Qed.
+
+Lemma deposited_pledge : forall P kf cust now dep amt p,
+  is_open (p_status p) = true ->
+  pledge (deposited P kf cust now dep amt p) = pledge p + (if dep =? gov_acct then amt else 0).
+Proof.
+  intros. unfold pledge. rewrite deposited_open by assumption. rewrite H.
+  cbn [deposited p_deps]. apply gov_part_add.
 Qed.
 
 Lemma add_deposit_ok_inv : forall P kf now s pid dep amt bd s',
@@ -193,9 +258,9 @@ Proof.
 Qed.
 
 Lemma add_deposit_wf : forall P kf now s pid dep amt bd s',
-  wf s -> 0 <= amt -> add_deposit P kf now s pid dep amt bd = (ROk, s') -> wf s'.
+  wf s -> 0 <= amt -> dep <> gov_acct -> add_deposit P kf now s pid dep amt bd = (ROk, s') -> wf s'.
 Proof.
-  intros until s'. intros W Ha H. apply add_deposit_ok_inv in H as (p & Hf & Ho & _ & ->).
+  intros until s'. intros W Ha Hd H. apply add_deposit_ok_inv in H as (p & Hf & Ho & _ & ->).
   destruct W as [Wi Wp Wc Ws]. constructor; cbn.
   - apply Forall_upd; [assumption|]. intros q Hq. rewrite deposited_id.
     rewrite Forall_forall in Wi. apply Wi. eapply find_prop_In; eauto.
@@ -203,12 +268,13 @@ Proof.
     rewrite Forall_forall in Wp. destruct (Wp q (find_prop_In _ _ _ Hq)) as [Ht Hn].
     split; cbn; [rewrite sum_deps_add; lia|now apply deps_nonneg_add].
   - rewrite (open_sum_upd _ _ _ _ Hf), deposited_contrib by assumption. lia.
-  - assumption.
+  - rewrite (pledged_upd _ _ _ _ Hf), deposited_pledge by assumption.
+    destruct (dep =? gov_acct) eqn:E; [apply Z.eqb_eq in E; contradiction|]. lia.
 Qed.
 
 Lemma submit_ok_inv : forall P kf now s proposer ms amt ex valid bd s',
   submit P kf now s proposer ms amt ex valid bd = (ROk, s') ->
-  check_msgs ms = true /\ 0 <= amt /\
+  check_msgs ms = true /\ 0 <= amt /\ 0 <= proposer /\
   add_deposit P kf now
     {| props := props s ++ [new_proposal P (next_id s) now proposer ms ex];
        next_id := next_id s + 1; gov_bal := gov_bal s; bal := bal s; burned := burned s;
@@ -217,11 +283,12 @@ Lemma submit_ok_inv : forall P kf now s proposer ms amt ex valid bd s',
 Proof.
   unfold submit. intros until s'.
   destruct (check_msgs ms); cbn [negb]; [|discriminate].
-  destruct (amt <? 0) eqn:Hn; [discriminate|].
+  destruct ((amt <? 0) || (proposer <? 0)) eqn:Hn; [discriminate|].
   destruct (negb (initial_ok P ex amt)); [discriminate|].
   destruct bd; [discriminate|]. destruct valid; cbn [negb]; [|discriminate].
   match goal with |- context [add_deposit ?a ?b ?c ?d ?e ?f ?g ?h] => destruct (add_deposit a b c d e f g h) as [r s2] eqn:E end.
-  destruct r; intro H; inversion H; subst. apply Z.ltb_ge in Hn. auto.
+  apply orb_false_elim in Hn as [Hn Hp]. apply Z.ltb_ge in Hn. apply Z.ltb_ge in Hp.
+  destruct r; intro H; inversion H; subst. auto.
 Qed.
 
 Lemma submit_err : forall P kf now s proposer ms amt ex valid bd r s',
@@ -229,7 +296,7 @@ Lemma submit_err : forall P kf now s proposer ms amt ex valid bd r s',
 Proof.
   unfold submit. intros until s'.
   destruct (negb (check_msgs ms)); [intros H; inversion H; auto|].
-  destruct (amt <? 0); [intros H; inversion H; auto|].
+  destruct ((amt <? 0) || (proposer <? 0)); [intros H; inversion H; auto|].
   destruct (negb (initial_ok P ex amt)); [intros H; inversion H; auto|].
   destruct bd; [intros H; inversion H; auto|].
   destruct (negb valid); [intros H; inversion H; auto|].
@@ -243,15 +310,15 @@ Proof. intros. split; cbn; [reflexivity|constructor]. Qed.
 Lemma submit_wf : forall P kf now s proposer ms amt ex valid bd s',
   wf s -> submit P kf now s proposer ms amt ex valid bd = (ROk, s') -> wf s'.
 Proof.
-  intros until s'. intros W H. apply submit_ok_inv in H as (_ & Ha & H).
-  eapply add_deposit_wf; [|exact Ha|exact H].
+  intros until s'. intros W H. apply submit_ok_inv in H as (_ & Ha & Hpr & H).
+  refine (add_deposit_wf _ _ _ _ _ _ _ _ _ _ Ha _ H); [|unfold gov_acct; lia].
   destruct W as [Wi Wp Wc Ws]. constructor; cbn.
   - apply Forall_app. split.
     + eapply Forall_impl; [|exact Wi]. cbn. intros; lia.
     + constructor; [cbn; lia|constructor].
   - apply Forall_app. split; [assumption|]. constructor; [apply new_proposal_ok|constructor].
   - rewrite open_sum_app. unfold contrib. cbn. lia.
-  - assumption.
+  - rewrite pledged_app. unfold pledge. cbn. lia.
 Qed.
 
 (* ------------------------------------------------------------------ Vote *)
@@ -274,24 +341,31 @@ Proof.
   - apply Forall_upd; [assumption|]. intros q Hq. cbn. rewrite Forall_forall in Wi. apply Wi. eapply find_prop_In; eauto.
   - apply Forall_upd; [assumption|]. intros q Hq. rewrite Forall_forall in Wp. apply (Wp q (find_prop_In _ _ _ Hq)).
   - rewrite (open_sum_upd _ _ _ _ Hf). unfold contrib. cbn. lia.
+  - rewrite (pledged_upd _ _ _ _ Hf). unfold pledge. cbn. lia.
 Qed.
 
 (* ------------------------------------------------------------------ paying out and closing *)
 Lemma pay_out_some : forall s p burn s1 ev,
   pay_out s p burn = Some (s1, ev) ->
-  props s1 = props s /\ next_id s1 = next_id s /\ gov_bal s1 = gov_bal s - sum_deps (p_deps p) /\
-  gov_spent s1 = gov_spent s /\ custom s1 = custom s /\ ext s1 = ext s /\
-  sum_deps (p_deps p) <= gov_bal s /\
+  props s1 = props s /\ next_id s1 = next_id s /\
+  gov_bal s1 + gov_spent s1 = gov_bal s + gov_spent s - sum_deps (p_deps p) /\
+  gov_spent s1 = gov_spent s - (if burn then 0 else gov_part (p_deps p)) /\
+  custom s1 = custom s /\ ext s1 = ext s /\
   ev = map (fun da => EvPay (p_id p) (fst da) (if burn then 0 else snd da) (if burn then snd da else 0)) (p_deps p).
 Proof.
-  unfold pay_out. intros until ev. destruct (gov_bal s <? sum_deps (p_deps p)) eqn:E; [discriminate|].
-  apply Z.ltb_ge in E. destruct burn; intro H; inversion H; subst; cbn; repeat split; auto.
+  unfold pay_out. intros until ev. destruct burn.
+  - destruct (gov_bal s <? sum_deps (p_deps p)); [discriminate|].
+    intro H; inversion H; subst; cbn. repeat split; auto; lia.
+  - destruct ((gov_bal s <? before_part (p_deps p) + gov_part (p_deps p)) || (gov_bal s <? sum_deps (p_deps p) - gov_part (p_deps p)));
+      [discriminate|].
+    intro H; inversion H; subst; cbn. repeat split; auto; lia.
 Qed.
 
 Lemma close_step_wf' : forall s s' id p g,
   wf s -> find_prop id (props s) = Some p -> is_open (p_status p) = true ->
   props s' = upd_prop id g (props s) -> next_id s' = next_id s ->
-  gov_bal s' + gov_spent s' = gov_bal s + gov_spent s - sum_deps (p_deps p) -> 0 <= gov_spent s' ->
+  gov_bal s' + gov_spent s' = gov_bal s + gov_spent s - sum_deps (p_deps p) ->
+  gov_spent s - gov_part (p_deps p) <= gov_spent s' ->
   (forall q, p_id (g q) = p_id q /\ p_total (g q) = p_total q /\ p_deps (g q) = p_deps q) ->
   is_open (p_status (g p)) = false ->
   wf s'.
@@ -303,13 +377,15 @@ Proof.
     rewrite Forall_forall in Wp. destruct (Wp q (find_prop_In _ _ _ Hq)). split; rewrite ?Ht, ?Hd; auto.
   - rewrite (open_sum_upd _ _ _ _ Hf). unfold contrib at 2. rewrite Hc.
     unfold contrib. rewrite Ho. lia.
-  - assumption.
+  - rewrite (pledged_upd _ _ _ _ Hf). unfold pledge at 2. rewrite Hc.
+    unfold pledge. rewrite Ho. lia.
 Qed.
 
 Lemma close_step_wf : forall s s1 id p g,
   wf s -> find_prop id (props s) = Some p -> is_open (p_status p) = true ->
   props s1 = props s -> next_id s1 = next_id s ->
-  gov_bal s1 + gov_spent s1 = gov_bal s + gov_spent s - sum_deps (p_deps p) -> 0 <= gov_spent s1 ->
+  gov_bal s1 + gov_spent s1 = gov_bal s + gov_spent s - sum_deps (p_deps p) ->
+  gov_spent s - gov_part (p_deps p) <= gov_spent s1 ->
   (forall q, p_id (g q) = p_id q /\ p_total (g q) = p_total q /\ p_deps (g q) = p_deps q) ->
   is_open (p_status (g p)) = false ->
   wf (set_props s1 (upd_prop id g (props s1))).
@@ -331,17 +407,48 @@ Proof.
     rewrite Forall_forall in Wp. destruct (Wp q (find_prop_In _ _ _ Hq)). split; rewrite ?Ht, ?Hd; auto.
   - rewrite (open_sum_upd _ _ _ _ Hf). unfold contrib. rewrite Ho, Hc.
     destruct (Hg p) as (_ & _ & ->). lia.
+  - rewrite (pledged_upd _ _ _ _ Hf). unfold pledge. rewrite Ho, Hc.
+    destruct (Hg p) as (_ & _ & ->). lia.
 Qed.
 
 (* ------------------------------------------------------------------ Cancel *)
+Lemma charge_bounds : forall rate a, 0 <= a -> 0 <= rate <= prec -> 0 <= charge_of rate a <= a.
+Proof.
+  intros rate a Ha Hr. unfold charge_of, dec_mul, dec_of_int, dec_trunc_int.
+  replace (a * prec * rate) with ((a * rate) * prec) by ring.
+  assert (0 <= a * rate) by (apply Z.mul_nonneg_nonneg; lia).
+  rewrite chop_round_exact by assumption. pose proof prec_pos.
+  assert (0 <= a * rate) by (apply Z.mul_nonneg_nonneg; lia).
+  rewrite Z.quot_div_nonneg by lia. split.
+  - apply Z.div_pos; lia.
+  - apply Z.div_le_upper_bound; [assumption|]. rewrite (Z.mul_comm prec a).
+    apply Z.mul_le_mono_nonneg_l; lia.
+Qed.
+
+Lemma rest_sum : forall rate l, sum_deps (rest_of rate l) + sum_charges rate l = sum_deps l.
+Proof.
+  unfold rest_of. induction l as [|[d a] r IH]; cbn [map sum_deps sum_charges fst snd]; [reflexivity|].
+  set (c := charge_of rate a). lia.
+Qed.
+
+Lemma rest_gov_part : forall rate l, deps_nonneg l -> 0 <= rate <= prec ->
+  0 <= gov_part (rest_of rate l) <= gov_part l.
+Proof.
+  intros rate l H Hr. unfold rest_of.
+  induction H as [|[d a] l Ha _ IH]; cbn [map gov_part fst snd] in *; [lia|].
+  pose proof (charge_bounds rate a Ha Hr). set (c := charge_of rate a) in *. destruct (d =? gov_acct); lia.
+Qed.
+
 Lemma cancel_inv : forall P now s pid proposer r s' ev,
   cancel P now s pid proposer = (r, s', ev) ->
   (r <> ROk /\ s' = s /\ ev = []) \/
   exists p, r = ROk /\ find_prop pid (props s) = Some p /\ is_open (p_status p) = true /\
-            sum_deps (p_deps p) <= gov_bal s /\
+            0 <= cancel_ratio P <= prec /\
             props s' = upd_prop pid (fun q => close_as q SCancelled) (props s) /\
-            next_id s' = next_id s /\ gov_bal s' = gov_bal s - sum_deps (p_deps p) /\
-            gov_spent s' = gov_spent s /\ custom s' = custom s /\ ext s' = ext s /\
+            next_id s' = next_id s /\
+            gov_bal s' + gov_spent s' = gov_bal s + gov_spent s - sum_deps (p_deps p) /\
+            gov_spent s' = gov_spent s - gov_part (rest_of (cancel_ratio P) (p_deps p)) /\
+            custom s' = custom s /\ ext s' = ext s /\
             ev = map (fun da => EvPay pid (fst da) (snd da - charge_of (cancel_ratio P) (snd da))
                                       (charge_of (cancel_ratio P) (snd da))) (p_deps p).
 Proof.
@@ -353,40 +460,110 @@ Proof.
   destruct (is_open (p_status p)) eqn:Ho; cbn [negb]; [|intros H; inversion H; left; repeat split; auto; discriminate].
   destruct (match p_status p with SVoting => p_vend p <? now | _ => false end);
     [intros H; inversion H; left; repeat split; auto; discriminate|].
-  destruct (gov_bal s <? sum_deps (p_deps p)) eqn:Hb; [intros H; inversion H; left; repeat split; auto; discriminate|].
-  apply Z.ltb_ge in Hb. intros H; inversion H; subst. right. exists p. cbn. repeat split; auto.
+  destruct ((cancel_ratio P <? 0) || (prec <? cancel_ratio P)) eqn:Hr;
+    [intros H; inversion H; left; repeat split; auto; discriminate|].
+  apply orb_false_elim in Hr as [R1 R2]. apply Z.ltb_ge in R1. apply Z.ltb_ge in R2.
+  match goal with |- context [if ?c then (RErr EFunds, s, []) else _] => destruct c end;
+    [intros H; inversion H; left; repeat split; auto; discriminate|].
+  intros H; inversion H; subst. right. exists p. cbn.
+  pose proof (rest_sum (cancel_ratio P) (p_deps p)).
+  repeat split; auto; lia.
 Qed.
 
 Lemma cancel_wf : forall P now s pid proposer r s' ev,
   wf s -> cancel P now s pid proposer = (r, s', ev) -> wf s'.
 Proof.
-  intros until ev. intros W H. apply cancel_inv in H as [(_ & -> & _)|(p & _ & Hf & Ho & Hb & Hp & Hn & Hg & Hs & _)]; [assumption|].
+  intros until ev. intros W H.
+  apply cancel_inv in H as [(_ & -> & _)|(p & _ & Hf & Ho & Hr & Hp & Hn & Hg & Hs & _)]; [assumption|].
+  assert (Hn' : deps_nonneg (p_deps p)).
+  { destruct W as [_ Wp _ _]. rewrite Forall_forall in Wp. apply (Wp p (find_prop_In _ _ _ Hf)). }
+  pose proof (rest_gov_part _ _ Hn' Hr).
   eapply close_step_wf' with (s := s) (p := p) (g := fun q => close_as q SCancelled); eauto;
-    try lia; try (destruct W; lia); try (intros q; repeat split; reflexivity).
+    try lia; try (intros q; repeat split; reflexivity).
 Qed.
 
 (* ------------------------------------------------------------------ proposal messages *)
-Lemma exec_one_frame : forall s m s', exec_one s m = Some s' ->
-  props s' = props s /\ next_id s' = next_id s /\ custom s' = custom s /\
-  gov_bal s' + gov_spent s' = gov_bal s + gov_spent s /\ gov_spent s <= gov_spent s'.
+Lemma gov_deposit_inv : forall e s pid amt s',
+  gov_deposit e s pid amt = Some s' ->
+  s' = s \/
+  exists p, find_prop pid (props s) = Some p /\ is_open (p_status p) = true /\ is_bad (p_status p) = false /\
+            0 < amt <= gov_bal s /\ pid <> x_self e /\
+            s' = {| props := upd_prop pid (deposited (x_P e) (x_kf e) (custom s) (x_now e) gov_acct amt) (props s);
+                    next_id := next_id s; gov_bal := gov_bal s; bal := bal s; burned := burned s;
+                    pool_in := pool_in s; ext := ext s; custom := custom s; gov_spent := gov_spent s + amt |}.
 Proof.
-  unfold exec_one. intros s m s'. destruct (m_act m) as [tag| |to amt].
-  - intro H; inversion H; subst; cbn. repeat split; lia.
+  unfold gov_deposit. intros e s pid amt s'.
+  destruct (find_prop pid (props s)) as [p|] eqn:Hf; [|discriminate].
+  destruct (pid =? x_self e) eqn:Es; cbn [orb negb].
+  - destruct (negb (0 <? amt)); [discriminate|].
+    destruct (negb (min_deposit_ratio (x_P e) =? 0) && negb (deposit_threshold (x_P e) p <=? amt)); [discriminate|].
+    destruct (gov_bal s <? amt); [discriminate|]. intro H; inversion H; auto.
+  - destruct (is_bad (p_status p)) eqn:Hb; cbn [negb andb]; [discriminate|].
+    destruct (is_removed (p_status p)); cbn [negb andb]; [discriminate|].
+    destruct (is_open (p_status p)) eqn:Ho; cbn [negb]; [|discriminate].
+    destruct (0 <? amt) eqn:Ha; cbn [negb]; [|discriminate].
+    destruct (negb (min_deposit_ratio (x_P e) =? 0) && negb (deposit_threshold (x_P e) p <=? amt)); [discriminate|].
+    destruct (gov_bal s <? amt) eqn:Hg; [discriminate|]. intro H; inversion H; subst.
+    right. exists p. apply Z.ltb_lt in Ha. apply Z.ltb_ge in Hg. apply Z.eqb_neq in Es. repeat split; auto; lia.
+Qed.
+
+Lemma gov_deposit_wf : forall e s pid amt s', wf s -> gov_deposit e s pid amt = Some s' -> wf s'.
+Proof.
+  intros e s pid amt s' W H. apply gov_deposit_inv in H as [->|(p & Hf & Ho & _ & Ha & _ & ->)]; [assumption|].
+  destruct W as [Wi Wp Wc Ws]. constructor; cbn.
+  - apply Forall_upd; [assumption|]. intros q Hq. rewrite deposited_id.
+    rewrite Forall_forall in Wi. apply Wi. eapply find_prop_In; eauto.
+  - apply Forall_upd; [assumption|]. intros q Hq.
+    rewrite Forall_forall in Wp. destruct (Wp q (find_prop_In _ _ _ Hq)) as [Ht Hn].
+    split; cbn; [rewrite sum_deps_add; lia|apply deps_nonneg_add; [lia|assumption]].
+  - rewrite (open_sum_upd _ _ _ _ Hf), deposited_contrib by assumption. lia.
+  - rewrite (pledged_upd _ _ _ _ Hf), deposited_pledge by assumption. rewrite Z.eqb_refl. lia.
+Qed.
+
+Lemma exec_one_wf : forall e s m s', wf s -> exec_one e s m = Some s' -> wf s'.
+Proof.
+  unfold exec_one. intros e s m s' W. destruct (m_act m) as [tag| |to amt|pid amt].
+  - intro H; inversion H; subst. destruct W; constructor; cbn; auto.
   - discriminate.
   - destruct ((0 <? amt) && (amt <=? gov_bal s)) eqn:E; [|discriminate].
     apply andb_prop in E as [E1 _]. apply Z.ltb_lt in E1.
-    intro H; inversion H; subst; cbn. repeat split; lia.
+    intro H; inversion H; subst. destruct W; constructor; cbn; auto; lia.
+  - apply gov_deposit_wf; assumption.
 Qed.
 
-Lemma exec_msgs_frame : forall ms s s', exec_msgs s ms = Some s' ->
-  props s' = props s /\ next_id s' = next_id s /\ custom s' = custom s /\
-  gov_bal s' + gov_spent s' = gov_bal s + gov_spent s /\ gov_spent s <= gov_spent s'.
+Lemma exec_msgs_wf : forall e ms s s', wf s -> exec_msgs e s ms = Some s' -> wf s'.
+Proof.
+  induction ms as [|m r IH]; cbn; intros s s' W H.
+  - inversion H; subst; assumption.
+  - destruct (exec_one e s m) as [s1|] eqn:E; [|discriminate]. eapply IH; [|exact H]. eapply exec_one_wf; eauto.
+Qed.
+
+(* messages never touch ids, the next id or the custom parameters, and never the record of the
+   proposal being executed *)
+Lemma exec_one_frame : forall e s m s', exec_one e s m = Some s' ->
+  next_id s' = next_id s /\ custom s' = custom s /\ map p_id (props s') = map p_id (props s) /\
+  find_prop (x_self e) (props s') = find_prop (x_self e) (props s).
+Proof.
+  unfold exec_one. intros e s m s'. destruct (m_act m) as [tag| |to amt|pid amt].
+  - intro H; inversion H; subst; cbn. auto.
+  - discriminate.
+  - destruct ((0 <? amt) && (amt <=? gov_bal s)); [|discriminate]. intro H; inversion H; subst; cbn. auto.
+  - intro H. apply gov_deposit_inv in H as [->|(p & Hf & _ & _ & _ & Hne & ->)]; [auto|]. cbn.
+    repeat split; auto.
+    + clear. induction (props s) as [|a r IH]; cbn; [reflexivity|].
+      destruct (p_id a =? pid); cbn; [reflexivity|now rewrite IH].
+    + apply find_upd_other; [intros; reflexivity|congruence].
+Qed.
+
+Lemma exec_msgs_frame : forall e ms s s', exec_msgs e s ms = Some s' ->
+  next_id s' = next_id s /\ custom s' = custom s /\ map p_id (props s') = map p_id (props s) /\
+  find_prop (x_self e) (props s') = find_prop (x_self e) (props s).
 Proof.
   induction ms as [|m r IH]; cbn; intros s s' H.
-  - inversion H; subst. repeat split; lia.
-  - destruct (exec_one s m) as [s1|] eqn:E; [|discriminate].
-    apply exec_one_frame in E as (A & B & C & D & F). apply IH in H as (A' & B' & C' & D' & F').
-    repeat split; try congruence; lia.
+  - inversion H; subst. auto.
+  - destruct (exec_one e s m) as [s1|] eqn:E; [|discriminate].
+    apply exec_one_frame in E as (A & B & C & D). apply IH in H as (A' & B' & C' & D').
+    repeat split; congruence.
 Qed.
 
 (* ------------------------------------------------------------------ end blocker *)
@@ -396,9 +573,28 @@ Lemma pay_close_wf : forall s p id burn s1 ev st,
   wf (set_props s1 (upd_prop id (fun q => close_as q st) (props s1))).
 Proof.
   intros until st. intros W Hf Ho Hp Hc.
-  apply pay_out_some in Hp as (A & B & C & D & _ & _ & Hle & _).
+  apply pay_out_some in Hp as (A & B & C & D & _).
   eapply close_step_wf with (s := s) (p := p); eauto;
-    try lia; try (destruct W; lia); try (intros q; repeat split; reflexivity).
+    try (intros q; repeat split; reflexivity).
+  rewrite D. destruct burn; [|lia].
+  assert (Hn : deps_nonneg (p_deps p)).
+  { destruct W as [_ Wp _ _]. rewrite Forall_forall in Wp. apply (Wp p (find_prop_In _ _ _ Hf)). }
+  pose proof (gov_part_bounds _ Hn). lia.
+Qed.
+
+Lemma pay_tallied_wf : forall s p id burn s1 ev st v,
+  wf s -> find_prop id (props s) = Some p -> is_open (p_status p) = true ->
+  pay_out s p burn = Some (s1, ev) -> is_open st = false ->
+  wf (set_props s1 (upd_prop id (fun q => tallied q st v) (props s1))).
+Proof.
+  intros until v. intros W Hf Ho Hp Hc.
+  apply pay_out_some in Hp as (A & B & C & D & _).
+  eapply close_step_wf with (s := s) (p := p); eauto;
+    try (intros q; repeat split; reflexivity).
+  rewrite D. destruct burn; [|lia].
+  assert (Hn : deps_nonneg (p_deps p)).
+  { destruct W as [_ Wp _ _]. rewrite Forall_forall in Wp. apply (Wp p (find_prop_In _ _ _ Hf)). }
+  pose proof (gov_part_bounds _ Hn). lia.
 Qed.
 
 Lemma process_inactive_wf : forall P s id s' ev,
@@ -428,20 +624,12 @@ Proof.
   { intro H; inversion H; subst. eapply keep_step_wf with (p := p); eauto;
       try (rewrite Hs; reflexivity); try (intros q; repeat split; reflexivity). }
   destruct (pay_out s p (burns v)) as [[s1 e1]|] eqn:Hp; [|discriminate].
-  apply pay_out_some in Hp as (A & B & C & D & _ & _ & Hle & _).
   assert (Ho : is_open (p_status p) = true) by (rewrite Hs; reflexivity).
   destruct (passes v).
-  - destruct (exec_msgs s1 (p_msgs p)) as [s2|] eqn:He.
-    + apply exec_msgs_frame in He as (A2 & B2 & _ & D2 & F2).
-      intro H; inversion H; subst.
-      eapply close_step_wf with (s := s) (p := p); eauto; try congruence;
-        try lia; try (destruct W; lia); try (intros q; repeat split; reflexivity).
-    + intro H; inversion H; subst.
-      eapply close_step_wf with (s := s) (p := p); eauto;
-        try lia; try (destruct W; lia); try (intros q; repeat split; reflexivity).
-  - intro H; inversion H; subst.
-    eapply close_step_wf with (s := s) (p := p); eauto;
-      try lia; try (destruct W; lia); try (intros q; repeat split; reflexivity).
+  - match goal with |- context [exec_msgs ?e ?sp ?ms] => destruct (exec_msgs e sp ms) as [s2|] eqn:He end.
+    + intro H; inversion H; subst. eapply exec_msgs_wf; [|exact He]. eapply pay_tallied_wf; eauto.
+    + intro H; inversion H; subst. eapply pay_tallied_wf; eauto.
+  - intro H; inversion H; subst. eapply pay_tallied_wf; eauto.
 Qed.
 
 Lemma fold_ids_wf : forall f, (forall s id s' ev, wf s -> f s id = Some (s', ev) -> wf s') ->
@@ -486,6 +674,13 @@ Proof.
   - destruct Hst as [[_ ->]|[_ ->]]; reflexivity.
 Qed.
 
+Lemma deposit_msg_valid : forall amt bd dep, deposit_msg_invalid amt bd dep = false -> 0 <= amt /\ dep <> gov_acct.
+Proof.
+  unfold deposit_msg_invalid, gov_acct. intros amt bd dep H.
+  apply orb_false_elim in H as [H H3]. apply orb_false_elim in H as [H1 _].
+  apply Z.ltb_ge in H1. apply Z.ltb_ge in H3. lia.
+Qed.
+
 (* ------------------------------------------------------------------ every step *)
 Lemma init_wf : forall b c, wf (init b c).
 Proof. intros. constructor; cbn; try constructor; lia. Qed.
@@ -498,10 +693,10 @@ Proof.
     + eapply submit_wf; eauto.
     + apply submit_err in E; [subst; assumption|discriminate].
     + apply submit_err in E; [subst; assumption|discriminate].
-  - destruct ((amt <? 0) || ((amt =? 0) && negb bad_denom)) eqn:Ha; [intro H; injection H as <- <- <-; assumption|].
+  - destruct (deposit_msg_invalid amt bad_denom depositor) eqn:Ha; [intro H; injection H as <- <- <-; assumption|].
     destruct (add_deposit P kf now s pid depositor amt bad_denom) as [r0 s0] eqn:E.
-    intro H; injection H as <- <- <-. apply orb_false_elim in Ha as [Ha _]. apply Z.ltb_ge in Ha. destruct r0.
-    + eapply add_deposit_wf; eauto; lia.
+    intro H; injection H as <- <- <-. apply deposit_msg_valid in Ha as [Ha Hd]. destruct r0.
+    + eapply add_deposit_wf; eauto.
     + apply add_deposit_err in E; [subst; assumption|discriminate].
     + apply add_deposit_err in E; [subst; assumption|discriminate].
   - destruct (vote s pid voter opts weighted) as [r0 s0] eqn:E.
@@ -514,7 +709,7 @@ Proof.
     destruct W; constructor; cbn; auto.
   - destruct (negb authorized); intro H; injection H as <- <- <-; [assumption|].
     destruct W; constructor; cbn; auto.
-  - destruct (bal s acct + delta <? 0); intro H; injection H as <- <- <-; [assumption|].
+  - destruct ((bal s acct + delta <? 0) || (acct <? 0)); intro H; injection H as <- <- <-; [assumption|].
     destruct W; constructor; cbn; auto.
   - destruct (corrupt s pid) as [r0 s0] eqn:E. intro H; injection H as <- <- <-. eapply corrupt_wf; eauto.
 Qed.
@@ -539,36 +734,74 @@ Proof.
   eapply Forall_impl; [|exact Wp]. intros p [A _]; exact A.
 Qed.
 
-(* guard: no submitted message is a send from the module account.  (Real histories: also no
-   MsgDeposit with the module account as depositor — that message kind has no action in the model,
-   see the header of M_Gov.v; a history containing it is not an `op` list at all.) *)
+(* guard, literally: no submitted message moves coins out of the module account or pledges them —
+   no AGovSend (bank send from it, crisis fee charged to it) and no AGovDeposit (it as depositor) *)
 Definition op_no_govsend (o : op) : Prop :=
   match o with
   | OSubmit _ _ ms _ _ _ _ => Forall no_govsend_msg ms
   | _ => True
   end.
 
-Definition quiet (s : state) : Prop :=
-  gov_spent s = 0 /\ Forall (fun p => Forall no_govsend_msg (p_msgs p)) (props s).
+Definition no_gov_rec (l : list (Z * Z)) : Prop := Forall (fun da => fst da <> gov_acct) l.
 
-Lemma exec_msgs_quiet : forall ms s s', Forall no_govsend_msg ms -> exec_msgs s ms = Some s' ->
-  gov_spent s' = gov_spent s /\ gov_bal s' = gov_bal s.
+Lemma no_gov_rec_part : forall l, no_gov_rec l -> gov_part l = 0.
+Proof.
+  induction 1 as [|[d a] l Hd _ IH]; cbn in *; [reflexivity|].
+  destruct (d =? gov_acct) eqn:E; [apply Z.eqb_eq in E; contradiction|lia].
+Qed.
+
+Lemma no_gov_rec_add : forall d a l, d <> gov_acct -> no_gov_rec l -> no_gov_rec (add_dep d a l).
+Proof.
+  induction l as [|[d' a'] r IH]; cbn; intros Hd H.
+  - constructor; [assumption|constructor].
+  - inversion H; subst. cbn in *. destruct (d' =? d).
+    + constructor; [cbn; assumption|assumption].
+    + constructor; [cbn; assumption|apply IH; assumption].
+Qed.
+
+Lemma no_gov_rec_rest : forall rate l, no_gov_rec l -> no_gov_rec (rest_of rate l).
+Proof. intros rate l H. unfold rest_of. induction H; cbn; constructor; auto. Qed.
+
+Definition qprop (p : proposal) : Prop :=
+  Forall no_govsend_msg (p_msgs p) /\ no_gov_rec (p_deps p).
+
+Definition quiet (s : state) : Prop := gov_spent s = 0 /\ Forall qprop (props s).
+
+Lemma exec_msgs_quiet : forall e ms s s', Forall no_govsend_msg ms -> exec_msgs e s ms = Some s' ->
+  gov_spent s' = gov_spent s /\ gov_bal s' = gov_bal s /\ props s' = props s.
 Proof.
   induction ms as [|m r IH]; cbn; intros s s' Hn H.
   - inversion H; auto.
-  - inversion Hn; subst. destruct (exec_one s m) as [s1|] eqn:E; [|discriminate].
-    apply IH in H as [A B]; [|assumption]. unfold exec_one, no_govsend_msg in *.
+  - inversion Hn; subst. destruct (exec_one e s m) as [s1|] eqn:E; [|discriminate].
+    apply IH in H as (A & B & C); [|assumption]. unfold exec_one, no_govsend_msg in *.
     destruct (m_act m); try contradiction; try discriminate. inversion E; subst; cbn in *. auto.
 Qed.
 
+Lemma quiet_find : forall s id p, quiet s -> find_prop id (props s) = Some p -> qprop p.
+Proof. intros s id p [_ Q] Hf. rewrite Forall_forall in Q. apply Q. eapply find_prop_In; eauto. Qed.
+
 Lemma quiet_upd : forall s s1 id g,
   quiet s -> gov_spent s1 = gov_spent s -> props s1 = props s ->
-  (forall q, p_msgs (g q) = p_msgs q) ->
+  (forall q, qprop q -> qprop (g q)) ->
   quiet (set_props s1 (upd_prop id g (props s1))).
 Proof.
   intros s s1 id g [Q1 Q2] Hs Hp Hg. split; cbn; [congruence|]. rewrite Hp.
-  apply Forall_upd; [assumption|]. intros q Hq. rewrite Hg.
+  apply Forall_upd; [assumption|]. intros q Hq. apply Hg.
   rewrite Forall_forall in Q2. apply Q2. eapply find_prop_In; eauto.
+Qed.
+
+Lemma pay_out_quiet : forall s id p burn s1 ev,
+  quiet s -> find_prop id (props s) = Some p -> pay_out s p burn = Some (s1, ev) ->
+  gov_spent s1 = gov_spent s /\ props s1 = props s.
+Proof.
+  intros until ev. intros Q Hf Hp. destruct (quiet_find _ _ _ Q Hf) as [_ G].
+  apply pay_out_some in Hp as (A & _ & _ & D & _). rewrite (no_gov_rec_part _ G) in D.
+  split; [destruct burn; lia|assumption].
+Qed.
+
+Lemma deposited_qprop : forall P kf cust now d a q, d <> gov_acct -> qprop q -> qprop (deposited P kf cust now d a q).
+Proof.
+  intros until q. intros Hd [A B]. split; cbn; [assumption|]. now apply no_gov_rec_add.
 Qed.
 
 Lemma process_inactive_quiet : forall P s id s' ev,
@@ -578,11 +811,11 @@ Proof.
   destruct (find_prop id (props s)) as [p|] eqn:Hf; [|intro H; inversion H; subst; assumption].
   destruct (p_status p); try solve [intro H; inversion H; subst; assumption]; try discriminate.
   - destruct (pay_out s p (burn_prevote P)) as [[s1 e1]|] eqn:Hp; [|discriminate].
-    intro H; inversion H; subst. apply pay_out_some in Hp as (A & _ & _ & D & _).
-    eapply quiet_upd; eauto.
+    intro H; inversion H; subst. destruct (pay_out_quiet _ _ _ _ _ _ Q Hf Hp) as [D A].
+    eapply quiet_upd; eauto; intros ? Hq'; exact Hq'.
   - destruct (pay_out s p false) as [[s1 e1]|] eqn:Hp; [|discriminate].
-    intro H; inversion H; subst. apply pay_out_some in Hp as (A & _ & _ & D & _).
-    eapply quiet_upd; eauto.
+    intro H; inversion H; subst. destruct (pay_out_quiet _ _ _ _ _ _ Q Hf Hp) as [D A].
+    eapply quiet_upd; eauto; intros ? Hq'; exact Hq'.
 Qed.
 
 Lemma process_active_quiet : forall P kf stk s id s' ev,
@@ -593,22 +826,22 @@ Proof.
   destruct (p_status p); try solve [intro H; inversion H; subst; assumption].
   2:{ destruct (bad_active_dequeued_by_key P); [|discriminate].
       destruct (pay_out s p false) as [[s1 e1]|] eqn:Hp; [|discriminate].
-      intro H; inversion H; subst. apply pay_out_some in Hp as (A & _ & _ & D & _).
-      eapply quiet_upd; eauto. }
+      intro H; inversion H; subst. destruct (pay_out_quiet _ _ _ _ _ _ Q Hf Hp) as [D A].
+      eapply quiet_upd; eauto; intros ? Hq'; exact Hq'. }
   set (v := tally P kf (custom s) stk p).
   destruct (p_expedited p && negb (passes v)).
-  { intro H; inversion H; subst. eapply (quiet_upd s s); eauto. }
+  { intro H; inversion H; subst. eapply (quiet_upd s s); eauto; intros ? Hq'; exact Hq'. }
   destruct (pay_out s p (burns v)) as [[s1 e1]|] eqn:Hp; [|discriminate].
-  apply pay_out_some in Hp as (A & _ & _ & D & _).
-  assert (Hm : Forall no_govsend_msg (p_msgs p)).
-  { destruct Q as [_ Q2]. rewrite Forall_forall in Q2. apply Q2. eapply find_prop_In; eauto. }
+  destruct (pay_out_quiet _ _ _ _ _ _ Q Hf Hp) as [D A].
+  destruct (quiet_find _ _ _ Q Hf) as [Hm _].
   destruct (passes v).
-  - destruct (exec_msgs s1 (p_msgs p)) as [s2|] eqn:He.
-    + pose proof (exec_msgs_frame _ _ _ He) as (A2 & _).
-      apply exec_msgs_quiet in He as [S2 _]; [|assumption].
-      intro H; inversion H; subst. eapply quiet_upd; eauto; congruence.
-    + intro H; inversion H; subst. eapply quiet_upd; eauto.
-  - intro H; inversion H; subst. eapply quiet_upd; eauto.
+  - match goal with |- context [exec_msgs ?e ?sp ?ms] => destruct (exec_msgs e sp ms) as [s2|] eqn:He end.
+    + apply exec_msgs_quiet in He as (S2 & _ & P2); [|assumption].
+      intro H; inversion H; subst.
+      assert (QP : quiet (set_props s1 (upd_prop id (fun q => tallied q SPassed v) (props s1)))) by (eapply quiet_upd; eauto; intros ? Hq'; exact Hq').
+      destruct QP as [Q1 Q2]. split; [congruence|]. rewrite P2. exact Q2.
+    + intro H; inversion H; subst. eapply quiet_upd; eauto; intros ? Hq'; exact Hq'.
+  - intro H; inversion H; subst. eapply quiet_upd; eauto; intros ? Hq'; exact Hq'.
 Qed.
 
 Lemma fold_ids_pres : forall (Q : state -> Prop) f,
@@ -629,28 +862,32 @@ Proof.
   - destruct (submit P kf now s proposer ms amt expedited valid bad_denom) as [r0 s0] eqn:E.
     intro H; injection H as <- <- <-. destruct r0;
       try (apply submit_err in E; [subst; assumption|discriminate]).
-    apply submit_ok_inv in E as (_ & _ & E). apply add_deposit_ok_inv in E as (p & _ & _ & _ & ->).
+    apply submit_ok_inv in E as (_ & _ & Hpr & E). apply add_deposit_ok_inv in E as (p & _ & _ & _ & ->).
     destruct Q as [Q1 Q2]. split; cbn; [assumption|].
     apply Forall_upd.
-    + apply Forall_app; split; [assumption|]. constructor; [exact Hg|constructor].
-    + intros q Hq. cbn. apply find_prop_In in Hq. apply in_app_or in Hq as [Hq|[<-|[]]].
+    + apply Forall_app; split; [assumption|]. constructor; [split; [exact Hg|constructor]|constructor].
+    + intros q Hq. apply deposited_qprop; [unfold gov_acct; lia|].
+      apply find_prop_In in Hq. apply in_app_or in Hq as [Hq|[<-|[]]].
       * rewrite Forall_forall in Q2. now apply Q2.
-      * exact Hg.
-  - destruct ((amt <? 0) || ((amt =? 0) && negb bad_denom)); [intro H; injection H as <- <- <-; assumption|].
+      * split; [exact Hg|constructor].
+  - destruct (deposit_msg_invalid amt bad_denom depositor) eqn:Hv; [intro H; injection H as <- <- <-; assumption|].
     destruct (add_deposit P kf now s pid depositor amt bad_denom) as [r0 s0] eqn:E.
     intro H; injection H as <- <- <-. destruct r0;
       try (apply add_deposit_err in E; [subst; assumption|discriminate]).
-    apply add_deposit_ok_inv in E as (p & _ & _ & _ & ->).
+    apply add_deposit_ok_inv in E as (p & _ & _ & _ & ->). apply deposit_msg_valid in Hv as [_ Hd].
     destruct Q as [Q1 Q2]. split; cbn; [assumption|].
-    apply Forall_upd; [assumption|]. intros q Hq. cbn.
+    apply Forall_upd; [assumption|]. intros q Hq. apply deposited_qprop; [assumption|].
     rewrite Forall_forall in Q2. apply Q2. eapply find_prop_In; eauto.
   - destruct (vote s pid voter opts weighted) as [r0 s0] eqn:E.
     intro H; injection H as <- <- <-. apply vote_props in E as [->|(p & _ & _ & ->)]; [assumption|].
-    eapply (quiet_upd s s); eauto.
-  - intro H. apply cancel_inv in H as [(_ & -> & _)|(p & _ & _ & _ & _ & Hp & _ & _ & Hs & _)]; [assumption|].
-    destruct Q as [Q1 Q2]. split; [congruence|]. rewrite Hp.
-    apply Forall_upd; [assumption|]. intros q Hq. cbn.
-    rewrite Forall_forall in Q2. apply Q2. eapply find_prop_In; eauto.
+    eapply (quiet_upd s s); eauto; intros ? Hq'; exact Hq'.
+  - intro H. apply cancel_inv in H as [(_ & -> & _)|(p & _ & Hf & _ & Hr & Hp & _ & _ & Hs & _)]; [assumption|].
+    destruct (quiet_find _ _ _ Q Hf) as [_ G].
+    assert (G' : gov_part (rest_of (cancel_ratio P) (p_deps p)) = 0)
+      by (apply no_gov_rec_part, no_gov_rec_rest, G).
+    destruct Q as [Q1 Q2]. split; [lia|]. rewrite Hp.
+    apply Forall_upd; [assumption|]. intros q Hq.
+    rewrite Forall_forall in Q2. exact (Q2 q (find_prop_In _ _ _ Hq)).
   - destruct (end_block P kf t stk s) as [[s1 e1]|] eqn:E; intro H; injection H as <- <- <-; [|assumption].
     unfold end_block in E.
     destruct (fold_ids (process_inactive P) _ s) as [[s2 e2]|] eqn:E1; [|discriminate].
@@ -662,9 +899,9 @@ Proof.
   - destruct (negb authorized); [intro H; injection H as <- <- <-; assumption|].
     destruct (negb (cparams_valid cp)); intro H; injection H as <- <- <-; [assumption|]. exact Q.
   - destruct (negb authorized); intro H; injection H as <- <- <-; [assumption|]. exact Q.
-  - destruct (bal s acct + delta <? 0); intro H; injection H as <- <- <-; [assumption|]. exact Q.
+  - destruct ((bal s acct + delta <? 0) || (acct <? 0)); intro H; injection H as <- <- <-; [assumption|]. exact Q.
   - destruct (corrupt s pid) as [r0 s0] eqn:E. intro H; injection H as <- <- <-.
-    apply corrupt_inv in E as [->|(p & st & _ & _ & ->)]; [assumption|]. eapply (quiet_upd s s); eauto.
+    apply corrupt_inv in E as [->|(p & st & _ & _ & ->)]; [assumption|]. eapply (quiet_upd s s); eauto; intros ? Hq'; exact Hq'.
 Qed.
 
 Lemma run_quiet : forall P kf ops s s' ev,
@@ -723,6 +960,27 @@ Proof.
   eapply healthy_upd; eauto. intros q _. split; [reflexivity|discriminate].
 Qed.
 
+Lemma deposited_ok_status : forall P kf cust now d a q,
+  ok_status (p_status q) -> ok_status (p_status (deposited P kf cust now d a q)).
+Proof.
+  intros until q. intros H. unfold deposited; cbn.
+  destruct (match p_status q with SDeposit => _ | _ => false end); [split; [reflexivity|discriminate]|exact H].
+Qed.
+
+Lemma exec_msgs_healthy : forall e ms s s', healthy s -> exec_msgs e s ms = Some s' -> healthy s'.
+Proof.
+  induction ms as [|m r IH]; cbn; intros s s' Q H.
+  - inversion H; subst; assumption.
+  - destruct (exec_one e s m) as [s1|] eqn:E; [|discriminate]. eapply IH; [|exact H].
+    unfold exec_one in E. destruct (m_act m) as [tag| |to amt|pid amt].
+    + inversion E; subst. exact Q.
+    + discriminate.
+    + destruct ((0 <? amt) && (amt <=? gov_bal s)); [|discriminate]. inversion E; subst. exact Q.
+    + apply gov_deposit_inv in E as [->|(p & _ & _ & _ & _ & _ & ->)]; [assumption|].
+      unfold healthy in *. cbn. apply Forall_upd; [assumption|]. intros q Hq. apply deposited_ok_status.
+      rewrite Forall_forall in Q. apply Q. eapply find_prop_In; eauto.
+Qed.
+
 Lemma process_active_healthy : forall P kf stk s id s' ev,
   healthy s -> process_active P kf stk s id = Some (s', ev) -> healthy s'.
 Proof.
@@ -736,18 +994,11 @@ Proof.
   destruct (pay_out s p (burns v)) as [[s1 e1]|] eqn:Hp; [|discriminate].
   apply pay_out_some in Hp as (A & _).
   destruct (passes v).
-  - destruct (exec_msgs s1 (p_msgs p)) as [s2|] eqn:He.
-    + pose proof (exec_msgs_frame _ _ _ He) as (A2 & _).
-      intro H; inversion H; subst. eapply healthy_upd; eauto; [congruence|]. intros q _. split; [reflexivity|discriminate].
+  - match goal with |- context [exec_msgs ?e ?sp ?ms] => destruct (exec_msgs e sp ms) as [s2|] eqn:He end.
+    + intro H; inversion H; subst. eapply exec_msgs_healthy; [|exact He].
+      eapply healthy_upd; eauto. intros q _. split; [reflexivity|discriminate].
     + intro H; inversion H; subst. eapply healthy_upd; eauto. intros q _. split; [reflexivity|discriminate].
   - intro H; inversion H; subst. eapply healthy_upd; eauto. intros q _. split; [reflexivity|discriminate].
-Qed.
-
-Lemma deposited_ok_status : forall P kf cust now d a q,
-  ok_status (p_status q) -> ok_status (p_status (deposited P kf cust now d a q)).
-Proof.
-  intros until q. intros H. unfold deposited; cbn.
-  destruct (match p_status q with SDeposit => _ | _ => false end); [split; [reflexivity|discriminate]|exact H].
 Qed.
 
 Lemma step_healthy : forall P kf s o r s' ev,
@@ -757,13 +1008,13 @@ Proof.
   - destruct (submit P kf now s proposer ms amt expedited valid bad_denom) as [r0 s0] eqn:E.
     intro H; injection H as <- <- <-. destruct r0;
       try (apply submit_err in E; [subst; assumption|discriminate]).
-    apply submit_ok_inv in E as (_ & _ & E). apply add_deposit_ok_inv in E as (p & _ & _ & _ & ->).
+    apply submit_ok_inv in E as (_ & _ & _ & E). apply add_deposit_ok_inv in E as (p & _ & _ & _ & ->).
     unfold healthy in *. cbn. apply Forall_upd.
     + apply Forall_app; split; [assumption|]. constructor; [split; [reflexivity|discriminate]|constructor].
     + intros q Hq. apply deposited_ok_status. apply find_prop_In in Hq. apply in_app_or in Hq as [Hq|[<-|[]]].
       * rewrite Forall_forall in Q. now apply Q.
       * split; [reflexivity|discriminate].
-  - destruct ((amt <? 0) || ((amt =? 0) && negb bad_denom)); [intro H; injection H as <- <- <-; assumption|].
+  - destruct (deposit_msg_invalid amt bad_denom depositor); [intro H; injection H as <- <- <-; assumption|].
     destruct (add_deposit P kf now s pid depositor amt bad_denom) as [r0 s0] eqn:E.
     intro H; injection H as <- <- <-. destruct r0;
       try (apply add_deposit_err in E; [subst; assumption|discriminate]).
@@ -786,7 +1037,7 @@ Proof.
   - destruct (negb authorized); [intro H; injection H as <- <- <-; assumption|].
     destruct (negb (cparams_valid cp)); intro H; injection H as <- <- <-; [assumption|]. exact Q.
   - destruct (negb authorized); intro H; injection H as <- <- <-; [assumption|]. exact Q.
-  - destruct (bal s acct + delta <? 0); intro H; injection H as <- <- <-; [assumption|]. exact Q.
+  - destruct ((bal s acct + delta <? 0) || (acct <? 0)); intro H; injection H as <- <- <-; [assumption|]. exact Q.
   - contradiction.
 Qed.
 
@@ -810,8 +1061,13 @@ Lemma pay_out_total : forall s p burn,
 Proof.
   intros s p burn [Wi Wp Wc Ws] Hs Hin Ho. unfold pay_out.
   pose proof (open_sum_ge _ _ Wp Hin) as Hle. unfold contrib in Hle. rewrite Ho in Hle.
-  destruct (gov_bal s <? sum_deps (p_deps p)) eqn:E; [apply Z.ltb_lt in E; lia|].
-  destruct burn; discriminate.
+  assert (Hn : deps_nonneg (p_deps p)) by (rewrite Forall_forall in Wp; apply (Wp p Hin)).
+  pose proof (gov_part_bounds _ Hn). pose proof (before_part_bounds _ Hn).
+  destruct burn.
+  - destruct (gov_bal s <? sum_deps (p_deps p)) eqn:E; [apply Z.ltb_lt in E; lia|discriminate].
+  - destruct (gov_bal s <? before_part (p_deps p) + gov_part (p_deps p)) eqn:E1; [apply Z.ltb_lt in E1; lia|].
+    destruct (gov_bal s <? sum_deps (p_deps p) - gov_part (p_deps p)) eqn:E2; [apply Z.ltb_lt in E2; lia|].
+    discriminate.
 Qed.
 
 Definition calm (s : state) : Prop := quiet s /\ healthy s.
@@ -834,7 +1090,8 @@ Proof.
   destruct (p_status p) eqn:Hs; try discriminate.
   destruct (p_expedited p && negb (passes (tally P kf (custom s) stk p))); [discriminate|].
   destruct (pay_out s p _) as [[s1 e1]|] eqn:Hp.
-  - destruct (passes _); [destruct (exec_msgs s1 (p_msgs p))|]; discriminate.
+  - destruct (passes _); [|discriminate].
+    match goal with |- context [exec_msgs ?e ?sp ?ms] => destruct (exec_msgs e sp ms) end; discriminate.
   - exfalso. eapply pay_out_total; eauto; [eapply find_prop_In; eauto|rewrite Hs; reflexivity].
 Qed.
 
